@@ -682,6 +682,49 @@ done:
     R.subspaces.push_back(sub);
 }
 
+// C20 at the search seam: virtual thinking time of `go wtime T btime T ...` must stay within 70 % of T
+static void list_clockseam()
+{
+    mc::Subspace sub;
+    sub.name = "thinking time at the search seam";
+    sub.bound = "positions with 1 / 2 / several legal moves x T in {1,5,20,70,100,300,714,1000,3000} ms x inc {0,50} x movestogo {0,1,30}; virtual clock +1 ms (T<=300) or +5 ms per read";
+    const char* fens[] = {"7k/5K2/8/6Q1/8/8/8/8 b - - 0 1", "k7/8/1K6/8/8/8/8/7B b - - 0 1", "8/8/8/3k4/8/3K4/3P4/8 w - - 0 1",
+                          "8/8/8/3k4/8/8/3K4/R7 w - - 0 1", "r3k2r/8/8/8/8/8/8/R3K2R w KQkq - 0 1"};
+    for (const char* fen : fens)
+        for (int T : {1, 5, 20, 70, 100, 300, 714, 1000, 3000})
+            for (int inc : {0, 50})
+                for (int mtg : {0, 1, 30})
+                {
+                    if (!mine()) continue;
+                    if (R.out_of_time()) goto done;
+                    std::string go = "go wtime " + std::to_string(T) + " btime " + std::to_string(T);
+                    if (inc) go += " winc " + std::to_string(inc) + " binc " + std::to_string(inc);
+                    if (mtg) go += " movestogo " + std::to_string(mtg);
+                    Session s = base(fen, go, "clockseam");
+                    int step = T <= 300 ? 1 : 5;
+                    s.spec.clock_step_ms = step;
+                    s.spec.horizon = 60000000;
+                    s.spec.lines = s.lines;
+                    sess::Outcome o = g_inproc ? sess::run_inproc(*g_uci, s.spec) : sess::run(*g_uci, s.spec);
+                    R.count("sessions");
+                    sub.states++;
+                    long long think = o.think_ms.empty() ? -1 : o.think_ms.back();
+                    size_t nmoves = legal_ucis(fen).size();
+                    // the search stops at the first clock read at or after its budget: think <= budget + step
+                    if (o.horizon_hit || think < 0)
+                        R.violation("C20:search_seam:no_answer_within_horizon", mc::JObj().raw("session", spec_json(s)));
+                    else if (10 * (think - 4 * step) > 7LL * T)
+                        R.violation(std::string("C20:search_seam:above_70_percent:") + (nmoves == 1 ? "single_legal_move" : "several_legal_moves"),
+                                    mc::JObj().raw("session", spec_json(s)).n("thinking_ms", think).n("time_left_ms", T).n("legal_moves", (long long)nmoves));
+                    R.outcome(std::to_string(T ? 100 * think / T : 0));
+                    if (sub.states == 4) R.sample(mc::JObj().raw("session", spec_json(s)).n("thinking_ms", think).str());
+                }
+    sub.exhaustive = true;
+done:
+    sub.transitions = sub.states;
+    R.subspaces.push_back(sub);
+}
+
 int main(int argc, char** argv)
 {
     std::string out, list, sigspec, replay;
@@ -767,6 +810,7 @@ int main(int argc, char** argv)
     else if (list == "poison") list_poison();
     else if (list == "mates") list_mates(sigspec);
     else if (list == "depths") list_depths();
+    else if (list == "clockseam") list_clockseam();
     else return 2;
     return R.write(out) ? 0 : 2;
 }
